@@ -595,6 +595,8 @@ class Exec:
             return True
         if z3.is_false(cond):
             return False
+        if getattr(self, "no_branch", False):
+            raise Untranslatable("a symbolic branch inside an expression that is evaluated under a quantifier")
         ft, ff = self.path.cached(lambda: (self.feasible(cond), self.feasible(z3.Not(cond))))
         if ft and ff:
             c = self.path.choose(2, label)
@@ -802,6 +804,9 @@ class Exec:
         spec = self.fv.contract.loops.get(ordn)
         if spec is None and isinstance(it, ObjV) and it.role == "opaque-coll":
             spec = LoopSpec()      # nothing is claimed about a loop over an uninterpreted table
+        if spec is None and hasattr(self.theory, "table_of") and (
+                (isinstance(it, ObjV) and it.role == "mixed-iter") or self.theory.table_of(self, it) is not None):
+            spec = LoopSpec()      # a search loop over a table: handled by the theory's automatic rule, no specification
         if spec is None:
             raise Untranslatable(f"for loop #{ordn} (line {n.lineno}) has no invariant")
         self.theory.for_loop(self, n, it, spec, ordn)
@@ -912,6 +917,11 @@ class Exec:
         if not n.elts:
             return self.theory.empty_list(self)
         return self.theory.list_display(self, [self.expr(e) for e in n.elts])
+
+    def e_Dict(self, n):
+        if any(k is None for k in n.keys) or not hasattr(self.theory, "dict_display"):
+            raise Untranslatable(f"expression Dict at line {n.lineno}")
+        return self.theory.dict_display(self, [self.expr(k) for k in n.keys], [self.expr(v) for v in n.values])
 
     def e_Attribute(self, n):
         recv = self.expr(n.value)
